@@ -285,3 +285,14 @@ Proof.
   cbn. intros H. apply andb_prop in H. destruct H as [H1 H2].
   apply jbx_eqb_eq in H1, H2. subst. apply anti_join_is_filter.
 Qed.
+
+(* a cached tf table wins over the concat table, whatever else is cached *)
+Lemma registered_table_wins (rec V : Type) veqb (value : nat -> rec -> option V) D route supplied r k tbl cc :
+  route k = route_of (route_priority false true cc) tbl ->
+  adhoc_tf rec V veqb value D route supplied r k = lookup_tbl V veqb tbl (value k r).
+Proof. intros H. unfold adhoc_tf. rewrite H. reflexivity. Qed.
+
+Lemma distinct_only_without_table (rec V : Type) veqb (value : nat -> rec -> option V) D route supplied r k tbl :
+  route k = route_of (route_priority false false true) tbl ->
+  adhoc_tf rec V veqb value D route supplied r k = tf_of_data rec V veqb value D k (value k r).
+Proof. intros H. unfold adhoc_tf. rewrite H. reflexivity. Qed.
